@@ -285,13 +285,15 @@ func regexpNext(sb *strings.Builder, sl *stringLexer, mode Mode) error {
 				return literalBracket()
 			}
 		}
+		first := true // whether c is the first character in the set
 		if c == ']' {
+			first = false
 			bsb.WriteByte(']')
 			if c = sl.next(); c == '\x00' {
 				return literalBracket()
 			}
 		}
-		for {
+		for ; ; first = false {
 			switch c {
 			case '\x00':
 				// Bash is inconsistent about invalid character classes
@@ -323,6 +325,9 @@ func regexpNext(sb *strings.Builder, sl *stringLexer, mode Mode) error {
 				}
 			case '-':
 				bsb.WriteByte('-')
+				if first {
+					break // a leading '-' is a literal, not a range
+				}
 				start := sl.last()
 				end := sl.peekNext()
 				// TODO: what about overlapping ranges, like: [a--z]
